@@ -131,7 +131,10 @@ def _cint(e, default):
     return None
 
 
-def resolve(fn, expr, depth=8, defs=None):
+def resolve(fn, expr, depth=8, defs=None, calls=False):
+    """calls=True also substitutes locals bound once to an expression that
+    contains a call (the value is then only a description of where the
+    local comes from, not something evaluated twice)."""
     defs = _defs(fn) if defs is None else defs
 
     class S(ast.NodeTransformer):
@@ -139,8 +142,8 @@ def resolve(fn, expr, depth=8, defs=None):
             self.changed = False
 
         def visit_Name(self, n):
-            if isinstance(n.ctx, ast.Load) and n.id in defs and _pure(
-                    defs[n.id]):
+            if isinstance(n.ctx, ast.Load) and n.id in defs and (
+                    calls or _pure(defs[n.id])):
                 self.changed = True
                 return acopy(defs[n.id])
             return n
@@ -159,8 +162,8 @@ def resolve(fn, expr, depth=8, defs=None):
     return e
 
 
-def canon(fn, expr, defs=None):
-    return unparse(resolve(fn, expr, defs=defs), 300)
+def canon(fn, expr, defs=None, calls=False):
+    return unparse(resolve(fn, expr, defs=defs, calls=calls), 300)
 
 
 def stores(fn):
